@@ -38,6 +38,11 @@ RULE = ('A reference frame of 1-5 columns (int64, Int64, float64, Float64, '
         'a within-precision / excluded-column edit that must pass; distinct '
         'by case hash.')
 RULE += ' ' + 'Also: row labels on either frame (offset, reversed, strings, duplicated, carried along with a shuffle) - the model stays positional; a sixth of integer columns hold 64-bit values around 2**53, -2**62, 2**63-1 and differ by 1-3; edit retype_changed (int64 -> float64 with a fractional or within-precision cell, bool -> int64 with a 7); a second comparison of the same frames at the other loose type-matching level; half of the on-disk comparisons give both files one modification time. One case in ten is a string table with a CSV reference (and sometimes a CSV actual) read by the default CSV loader: NA-like strings are data, only the empty field is null.'
+RULE += (' Histories with sortby (in-memory entries): the one list of sort '
+         'keys is first used for a comparison whose actual frame lacks the key '
+         'column; after a passing comparison a frame derived from the actual '
+         'one (reversed / rotated, attrs carried over) is compared again with '
+         'the same keys and must pass.')
 ASSUMPTIONS = ['type_matching levels: strict = same dtype name; medium also '
                'ignores bit width and nullability within int / float / bool '
                'and lets object stand for string; permissive also lets int, '
@@ -909,9 +914,23 @@ def run(case, ctx):
     os.makedirs(rt.pandas.tmp_dir)
     rt.pandas.verbose = False
     msg = ''
+    in_memory = entry in ('check_dataframe', 'assertDataFramesEqual')
     if entry == 'check_dataframe':
         pc = PandasComparison(print_fn=None, verbose=False,
                               tmp_dir=rt.pandas.tmp_dir)
+    if (o['sortby'] and in_memory and case['act']['n'] % 2 == 1
+            and all(k in act_df for k in o['sortby'])):
+        # a history: the caller's one list of sort keys (a module constant)
+        # was first used for a comparison whose actual frame lacks a key
+        # column (that comparison rightly fails); then for this one
+        lacking = act_df.drop(columns=o['sortby'][:1])
+        if entry == 'check_dataframe':
+            quiet(pc.check_dataframe, lacking, ref_df.copy(), **kw)
+        else:
+            quiet(rt.assertDataFramesEqual, lacking, ref_df.copy(), **kw)
+        rec.calls = []
+        out.label('history:sort-keys-list-used-before-with-missing-column')
+    if entry == 'check_dataframe':
         ok, r = quiet(pc.check_dataframe, act_df, ref_df, **kw)
         if ok:
             got_pass = (r.failures == 0)
@@ -965,6 +984,31 @@ def run(case, ctx):
                                 'no-mention:' + kind,
                                 '%s: difference %s %r not described in %r'
                                 % (entry, kind, what, msg[:300]))
+    if o['sortby'] and in_memory and got_pass and len(act_df) > 1:
+        # a history: a frame derived from the one just compared (same rows,
+        # other order; pandas hands the first frame's attrs on to it) is
+        # compared with the same sort keys
+        if case['ref']['n'] % 2:
+            derived = act_df.iloc[::-1]
+        else:
+            derived = pd.concat([act_df.iloc[1:], act_df.iloc[:1]])
+        rec.calls = []
+        if entry == 'check_dataframe':
+            ok3, r3 = quiet(pc.check_dataframe, derived, ref_df, **kw)
+            got3 = ok3 and r3.failures == 0
+        else:
+            ok3, r3 = quiet(rt.assertDataFramesEqual, derived, ref_df, **kw)
+            got3 = not rec.failed
+        out.label('history:derived-frame-compared-again-with-sortby')
+        if not ok3 or not got3:
+            out.violate('verdict', 'derived-frame:should-pass',
+                        '%s passed, but the same rows in another order '
+                        '(a frame derived from the one just compared) '
+                        'fail with the same sortby %r: %s'
+                        % (entry, o['sortby'],
+                           r3.detail() if not ok3 else
+                           (r3.diffs.message() if entry == 'check_dataframe'
+                            else rec.calls)))
     if o['type_matching'] in ('medium', 'permissive') and entry in (
             'check_dataframe', 'assertDataFramesEqual'):
         # a history: the same pair compared again at the other loose level
